@@ -115,6 +115,31 @@ class _Parens(cst.CSTTransformer):
         return updated_node.with_changes(value=self._wrap(updated_node.value))
 
 
+class _InListLiteral(cst.CSTTransformer):
+    """x = call(...)  ->  x = [\n    call(...),\n]: the call starts on a continuation line of a multi-line simple statement."""
+
+    def __init__(self):
+        self.changed = False
+
+    def _wrap(self, value):
+        if not isinstance(value, cst.Call):
+            return value
+        self.changed = True
+        nl = cst.ParenthesizedWhitespace(first_line=cst.TrailingWhitespace(), indent=True, last_line=cst.SimpleWhitespace("    "))
+        end = cst.ParenthesizedWhitespace(first_line=cst.TrailingWhitespace(), indent=True, last_line=cst.SimpleWhitespace(""))
+        return cst.List(
+            elements=[cst.Element(value=value, comma=cst.Comma(whitespace_after=end))],
+            lbracket=cst.LeftSquareBracket(whitespace_after=nl),
+            rbracket=cst.RightSquareBracket(),
+        )
+
+    def leave_Assign(self, original_node, updated_node):
+        return updated_node.with_changes(value=self._wrap(updated_node.value))
+
+    def leave_Expr(self, original_node, updated_node):
+        return updated_node.with_changes(value=self._wrap(updated_node.value))
+
+
 class _ParenBreak(cst.CSTTransformer):
     """a == b  ->  (a ==\n    b): every comparison / boolean / binary operation gets its own parentheses and a line
     break after its first operator (legal only because of the parentheses)."""
@@ -404,6 +429,7 @@ _reg("layout:comment", "layout", 0, _mk(_visit(_Comment)), True)
 _reg("layout:semicolon", "layout", 0, _mk(_visit(_Semicolon)), False)
 _reg("layout:parens", "layout", 0, _mk(_visit(_Parens)), True)
 _reg("layout:paren-break", "layout", 0, _mk(_visit(_ParenBreak)), True)
+_reg("layout:in-list-literal", "layout", 0, _mk(_visit(_InListLiteral)), False)
 _reg("layout:paren-exprs", "layout", 0, _mk(_visit(_ParenAll)), True)
 _reg("args:starstar", "args", 0, _mk(_visit(_StarStar)), False)
 _reg("args:reorder-kw", "args", 0, _mk(_visit(_ReorderKw)), False)
